@@ -72,6 +72,7 @@ CHECKS["C04"] = {
               A("family", "./checks/c04", "TestC04Family", budget={"quick": 60, "thorough": 900}),
               A("tcp", "./checks/c04", "TestC04TCP", budget={"quick": 90, "thorough": 1500}),
               A("dual", "./checks/c04", "TestC04Dual", budget={"quick": 90, "thorough": 1500}),
+              A("multihomed", "./checks/c04", "TestC04Multihomed", budget={"quick": 60, "thorough": 900}),
               A("realudp", "./checks/c04", "TestC04RealUDP", budget={"quick": 120, "thorough": 1500}),
               A("sched", "./checks/bsem", "TestC04Sched", overlay=True, gomaxprocs=1, budget={"quick": 90, "thorough": 1500})],
 }
